@@ -43,6 +43,7 @@ type hScenario struct {
 	Ops        []hOp  `json:"ops"`
 	Finite     bool   `json:"finite,omitempty"`
 	Reset      string `json:"reset,omitempty"`        // checkpoint.autoReset
+	MetaBucket string `json:"meta_bucket,omitempty"`  // metadata.config.bucket (couchbase metadata placed in another bucket)
 	EndOnClose bool   `json:"end_on_close,omitempty"` // the server confirms every CloseStream with STREAM_END(closed), as a real node does
 	File       bool   `json:"file,omitempty"`         // real file metadata backend (whole-state writes) instead of the per-vBucket fake
 }
@@ -183,6 +184,11 @@ func newSession(sc *hScenario, oracles ...string) *session {
 	}
 	if sc.Reset != "" {
 		s.cfg.Checkpoint.AutoReset = sc.Reset
+	}
+	if sc.MetaBucket != "" {
+		// the connector's documents are configured to live in another bucket than the streamed one (the store itself is
+		// the injected one): other groups' documents and transaction records in the streamed bucket are reserved all the same
+		s.cfg.Metadata.Config = map[string]string{"bucket": sc.MetaBucket}
 	}
 	s.cl = newFakeClient(sc.NumVb)
 	s.cl.endOnClose = sc.EndOnClose
@@ -539,7 +545,14 @@ func (s *session) rebalance(op hOp) {
 		s.label("ack_while_closed")
 	}
 	if s.scrapeClosed != nil && op.AtL {
-		s.hand.hook("ARS", s.scrapeClosed) // a scrape while the stream is closed inside the rebalance
+		// a scrape from inside one of the lifecycle callbacks of the rebalance: while the stream is closed (ARS, BRE),
+		// in the tail of Close (ASStop: the observers are gone, the stream still calls itself open), at its head
+		// (BSStop) or at the head of the reopen (BSStart)
+		at := []string{"ARS", "ASStop", "BSStop", "BRE", "BSStart", "ASStop"}[((op.Snap%6)+6)%6]
+		if !(at == "ASStop" && op.Fail && len(s.old) > 0) {
+			s.hand.hook(at, s.scrapeClosed)
+			s.label("scrape_inside_" + at)
+		}
 	}
 	ok, pv := within(20*time.Second, func() { s.st.Rebalance() })
 	if !ok || pv != nil {
